@@ -1008,6 +1008,10 @@ func (e *c15Env) checkExact(c *vlib.Case, segs []c15Seg, args []interface{}, rou
 		if sp.class == "%s" && sp.end-sp.start >= 1000000 {
 			e.nMillion++
 		}
+		switch sp.class {
+		case "missing-arg", "wrong-type-arg", "surplus-arg":
+			e.markers[sp.class]++
+		}
 	}
 	run.Count("outputs_compared", 1)
 	run.Count("bytes_compared", int64(len(exp)))
@@ -1041,7 +1045,6 @@ func (e *c15Env) checkExact(c *vlib.Case, segs []c15Seg, args []interface{}, rou
 		switch sp.class {
 		case "missing-arg", "wrong-type-arg", "surplus-arg":
 			run.Count("markers_checked_"+sp.class, 1)
-			e.markers[sp.class]++
 		}
 	}
 
@@ -1104,6 +1107,26 @@ func (e *c15Env) checkArbitrary(c *vlib.Case, format string, args []interface{},
 			c.Violation("allocates:arbitrary-format-nil-writer", map[string]interface{}{"format": strconv.Quote(format), "args": argsDesc, "allocs_per_call": a})
 		}
 	}
+}
+
+// c15ProbeStr is not a constant so that the conversion below is a real one.
+var c15ProbeStr = strings.Repeat("p", 64)
+
+// c15HostElidesConversionCopies reports whether this build of the package
+// turns a non-escaping string->[]byte conversion into a zero-copy view
+// (go1.22+ does unless built with -gcflags=-d=zerocopy=0). It matters for what
+// a zero allocation reading means: a formatter that converts format text or a
+// string argument with []byte(...) allocates for texts above 32 bytes on the
+// compilers the kernel targets, but not in such a host build.
+func c15HostElidesConversionCopies() bool {
+	sum := 0
+	a := testing.AllocsPerRun(10, func() {
+		b := []byte(c15ProbeStr)
+		for _, x := range b {
+			sum += int(x)
+		}
+	})
+	return a == 0 && sum != 0
 }
 
 type c15Fixed struct {
@@ -1173,6 +1196,13 @@ func TestVerifC15(t *testing.T) {
 
 	savedSink, savedRing := outputSink, earlyPrintBuffer
 	defer func() { outputSink, earlyPrintBuffer = savedSink, savedRing }()
+
+	if c15HostElidesConversionCopies() {
+		run.SetAdd("build", "compiler elides the copy of non-escaping string->[]byte conversions: yes (default go1.22+ build)")
+		run.Note("this build elides the copy of non-escaping string->[]byte conversions, so an allocation that exists only on older compilers (conversion of format text / string arguments above 32 bytes) reads as 0 here; build the kfmt package with -gcflags=-d=zerocopy=0 to see it")
+	} else {
+		run.SetAdd("build", "compiler elides the copy of non-escaping string->[]byte conversions: no (-d=zerocopy=0 or pre-1.22 semantics)")
+	}
 
 	env := &c15Env{run: run, typeVerb: map[string]bool{}, markers: map[string]int{}}
 	env.cap.buf = make([]byte, 1<<20+8192)
